@@ -371,7 +371,7 @@ def function_fingerprint(f: ast.FunctionDef) -> list[str]:
             if cn:
                 out.append("c:" + ("<self>" if cn == f.name else cn))
         elif isinstance(n, ast.Attribute):
-            out.append("a:" + n.attr)
+            out.append("a:" + ("<self>" if n.attr == f.name else n.attr))
         elif isinstance(n, (ast.For, ast.While, ast.If, ast.Try, ast.With,
                             ast.Return, ast.Yield, ast.Raise)):
             out.append("s:" + type(n).__name__)
